@@ -32,6 +32,7 @@ func TestC13Race(t *testing.T) {
 	// the hook is left installed: a handler of a cancelled call may still be
 	// running when the test function returns
 	SetGate(func(string) { runtime.Gosched() })
+	connect.VerifChoose = nil
 	iterations := 40
 	if n, err := strconv.Atoi(os.Getenv("VERIF_RACE_ITER")); err == nil && n > 0 {
 		iterations = n
